@@ -1197,7 +1197,8 @@ def source_tie(chk):
             chk.broken.append({"what": "source tie einsum_equations broken: the ast rewrite does not cover the current source of an einsum-backend routine", "detail": str(e)})
         chk.checker_cmds.append("coqc on generated build/gen/C02_*/EqTie.v: source einsum equations = model equations up to renaming (Proofs/TenalgProofsEq.v)")
         chk.cov["source_derived_lemmas"]["einsum_equations"] = est
-        # third tie: the bodies of the core backend's mode_dot, multi_mode_dot, khatri_rao, kronecker and unfolding_dot_khatri_rao, translated from the current
+        # third tie: the bodies of the core backend's mode_dot, multi_mode_dot, khatri_rao, kronecker, unfolding_dot_khatri_rao (+ memory), outer, batched_outer,
+        # higher_order_moment and inner, translated from the current
         # source into Gallina (harness/props/C02_coretie.py), are proved equal to the model routines for all inputs
         from harness.props import C02_coretie
         from concurrent.futures import ThreadPoolExecutor
@@ -1236,7 +1237,7 @@ def source_tie(chk):
         chk.cov["source_derived_lemmas"]["routing"] = "checked" if not rp else "broken"
         if rp:
             chk.broken.append({"what": "source tie routing broken: a routine of the property is not routed to the source the ties translate", "detail": rp[:6]})
-        chk.checker_cmds.append("coqc on generated build/gen/C02_*/Core_*.v: core mode_dot / multi_mode_dot / khatri_rao / kronecker / unfolding_dot_khatri_rao (+ memory variant on valid inputs) source = model routine, all inputs (tensorly source -> Gallina)")
+        chk.checker_cmds.append("coqc on generated build/gen/C02_*/Core_*.v: core mode_dot / multi_mode_dot / khatri_rao / kronecker / unfolding_dot_khatri_rao (+ memory variant on valid inputs) / outer / batched_outer (operands of order >= 1) / higher_order_moment (order >= 1, mean read as the sum) / inner (= the as-is model inner_as_is for every n_modes, or the documented routine once n_modes is validated) source = model routine, all inputs (tensorly source -> Gallina)")
     finally:
         shutil.rmtree(d, ignore_errors=True)
 
